@@ -467,6 +467,30 @@ def finish(ctx, level, coverage, viols, assumptions, save=None, extra_lines=None
     return rc
 
 
+def crash_violations(out):
+    """A harness process that died from a Go panic: if the panic comes out of sarama code (first
+    non-runtime frame is not a harness file) it is a violation of the no_panic clause, otherwise
+    (harness bug) None is returned and the caller must treat the run as inconclusive."""
+    res = []
+    for m in re.finditer(r"^(panic: .*|fatal error: .*)$", out, re.M):
+        tail = out[m.end():m.end() + 6000]
+        frames = re.findall(r"^(\S[^\n]*)\n\t(\S+):(\d+)", tail, re.M)
+        site = None
+        for fn, path, line in frames:
+            if "/runtime/" in path or fn.startswith("panic(") or fn.startswith("runtime."):
+                continue
+            site = (fn, path, line)
+            break
+        if site is None:
+            continue
+        if "zz_verif_" in site[1] or "/verif/harness/" in site[1]:
+            return None
+        res.append({"clause": "no_panic", "trace": 0, "index": 0,
+                    "features": {"panic": m.group(1)[:200], "site": re.sub(r"\(.*", "", site[0]), "file": os.path.basename(site[1]), "line": int(site[2])}})
+        break
+    return res
+
+
 def read_ndjson(path):
     res = []
     with open(path) as f:
